@@ -239,7 +239,7 @@ RLPollIdle(b) ==  \* 0.1 s poll timeout: idle flag set when nothing is queued / 
 ProcBeginFx(t, b, e, E0) ==
   IF GuardTrips(E0, hist, b, e) THEN [ok |-> FALSE, E |-> E0, todo |-> <<>>]
   ELSE LET hs == Applicable(E0, hist, b, e) IN [ok |-> TRUE, E |-> [E0 EXCEPT ![e] = AddPending(@, hs, b)], todo |-> hs]
-ProcLine(a, t, b, e) == Line(a) @@ [b |-> b, e |-> e, n |-> -1, exc |-> "RuntimeError"]
+ProcLine(a, t, b, e) == Line(a) @@ [b |-> b, e |-> e, n |-> -1, exc |-> "RuntimeError", ok |-> TaskLabelKind(t), oa |-> IF FrameOwner(t)[1] = "h" THEN FrameOwner(t)[2] ELSE 0]
 
 RLEnter(b, T, sem, dep, lq) ==  \* common tail of RLBegin (lock acquired) and RLGranted: process_event is entered (probe line ProcB)
   LET t == RL(b)  e == task[t].e IN
